@@ -60,8 +60,9 @@ def step_lean(pid, log):
     if not names:
         res["props_ok"] = True
         return res
-    mod = f"Qwt.Props.{pid}"
-    rc, out = sh(["lake", "build", mod], cwd=LEAN, timeout=6000)
+    mods = ob.get("modules") or [f"Qwt.Props.{pid}"]
+    mod = mods[0]
+    rc, out = sh(["lake", "build"] + mods, cwd=LEAN, timeout=6000)
     log.append(out[-3000:])
     if rc != 0:
         res["broken"] = names
@@ -72,7 +73,8 @@ def step_lean(pid, log):
     os.makedirs(os.path.join(WORK, pid), exist_ok=True)
     audit = os.path.join(WORK, pid, "Audit.lean")
     with open(audit, "w") as f:
-        f.write(f"import {mod}\n")
+        for m_ in mods:
+            f.write(f"import {m_}\n")
         for n in names:
             f.write(f"#print axioms {n}\n")
     rc, out = sh(["lake", "env", "lean", audit], cwd=LEAN, timeout=3000)
